@@ -300,6 +300,9 @@ def candidates(schema, att, a, v, loc, rng):
                     if ascii_only and not s.isascii():
                         continue
                     out.append(("pattern", s))
+                if loc in ("body", "query"):
+                    # anchors are anchors of the whole text, not of its lines (Go regexp without the m flag)
+                    out += [("pattern-multiline", "abc\n<x>"), ("pattern-multiline", "<x>\nabc"), ("pattern-multiline", "ab\ncd")]
             if ev.get("enum"):
                 out += [("enum-outsider", "zzz")] + [("enum-member-%d" % i, x) for i, x in enumerate(ev["enum"])]
     elif p == "Bytes":
